@@ -69,6 +69,10 @@ func init() {
 				frags = fragEvery(wire, in.N(2))
 			}
 			cfg := pipeCfg{streaming: in.N(3) == 1, noNorm: len(in) > 7 && in.N(7) == 1}
+			if len(in) > 8 {
+				cfg.opts = in.N(8)
+			}
+			noKeepalive := cfg.opts&32 != 0
 			partial := 0
 			if len(in) > 6 && in.N(6) > 0 && cfg.streaming {
 				partial = in.N(6)
@@ -82,6 +86,9 @@ func init() {
 			if obs.err != nil && (strings.HasPrefix(obs.err.Error(), "PANIC") || strings.HasPrefix(obs.err.Error(), "harness:")) {
 				bad("panic-or-blocked", obs.err.Error())
 				return fs
+			}
+			if noKeepalive { // DisableKeepalive: the first request is served with Connection: close, nothing after it
+				reqs = reqs[:1]
 			}
 			if len(obs.handled) != len(reqs) {
 				bad("handler-invocation-count", fmt.Sprintf("handled %d of %d requests", len(obs.handled), len(reqs)))
@@ -119,6 +126,14 @@ func init() {
 					bad("response-order-or-content", fmt.Sprintf("response %d: status %d X-I=%s body=%q", k, rsp.status, rsp.get("X-I"), rsp.body))
 					return fs
 				}
+				if (rsp.get("Server") == "") != (cfg.opts&1 != 0) {
+					bad("server-header-option-not-honoured", fmt.Sprintf("Server=%q, NoDefaultServerHeader=%v", rsp.get("Server"), cfg.opts&1 != 0))
+					return fs
+				}
+				if noKeepalive && !strings.EqualFold(rsp.get("Connection"), "close") {
+					bad("keep-alive-disabled-but-response-lacks-connection-close", fmt.Sprintf("Connection=%q", rsp.get("Connection")))
+					return fs
+				}
 			}
 			if k != len(reqs) {
 				bad("response-count", fmt.Sprintf("%d responses for %d requests", k, len(reqs)))
@@ -149,7 +164,11 @@ func init() {
 				if t.R.Intn(4) == 0 {
 					noNorm = 1
 				}
-				t.Do(In{Nn(seed), Nn(n), Nn(frag), Nn(t.R.Intn(2)), Nn(t.R.Intn(2)), Nn(big), Nn(partial), Nn(noNorm)}, true)
+				opts := 0
+				if t.R.Intn(3) == 0 { // one case in three under further server options
+					opts = t.R.Intn(8)&7 | []int{0, 16, 32, 48}[t.R.Intn(4)]
+				}
+				t.Do(In{Nn(seed), Nn(n), Nn(frag), Nn(t.R.Intn(2)), Nn(t.R.Intn(2)), Nn(big), Nn(partial), Nn(noNorm), Nn(opts)}, true)
 			}
 		}})
 }
